@@ -3,11 +3,11 @@ from harness.core import z, lst
 from harness import tree_common as tc
 
 ID = 'C11'
-COQ_MODULE = 'Desper.Tree.C11Model'
-CASE_TYPE = 'C11_case'
-VERDICT = 'C11_verdict'
+COQ_MODULE = 'Desper.Tree.C11Keys'
+CASE_TYPE = 'C11_rcase'
+VERDICT = 'C11_rverdict'
 PROPS_FILE = 'theories/Props/C11.v'
-THEOREM = 'C11_tree_consistent'
+THEOREM = 'C11_tree_consistent_keys'
 RULE = ('2-12 operations (m[key]=value 65%, handles.maps.insert(0,{}) as the populator does, '
         'clear) on 1-3 root ResourceMaps and on sub-maps reached through them; keys of depth '
         '1-4 over the alphabet a,b,c,d and the empty part, half of them re-using / extending / '
@@ -15,7 +15,11 @@ RULE = ('2-12 operations (m[key]=value 65%, handles.maps.insert(0,{}) as the pop
         '(also with 2-3 handle layers); every object is inserted at most once; after every '
         'operation the attributes (parent, key, maps, every handle layer) of every known '
         'object are dumped and 3-5 queries m[p], m[p1][p2].., get(p,D), get(p,D)(), get(p) '
-        'are asked; non-trivial = at least 3 assignments, one with a composed key')
+        'are asked; in 70% of the cases the maps created by the harness have their own '
+        'split_char (a ResourceMap subclass, or an instance attribute, with ".", ":" or "|"), '
+        'keys are composed with the split_char of the map the operation is called on (maps '
+        'created implicitly are plain ResourceMaps: "/"), 8% of the key parts are empty '
+        '("a//b", leading / trailing separator); non-trivial = at least 3 assignments, one with a composed key')
 TRUSTED = [
     'Coq 8.16.1 kernel + vm_compute (evaluation of C11_verdict on the observed traces)',
     'hand-written model Tree/C11Model.v tied to /repo by this correspondence run '
@@ -29,12 +33,14 @@ ASSUMPTIONS = ['a resource object (handle or map) is inserted at most once; valu
                'objects created by the caller']
 
 KINDS = ['QItem', 'QChain', 'QGet', 'QGetCall', 'QGetNone']
+SEPCHARS = ['.', ':', '|']
+SEPCODE = {'/': -1, '.': -2, ':': -3, '|': -4}
 
 
 # ------------------------------------------------------------------ generator
 def rand_key(rng, depth=None):
     d = depth or rng.choice([1, 1, 2, 2, 3, 3, 4])
-    return [4 if rng.random() < 0.04 else rng.randrange(4 if rng.random() < 0.3 else 3)
+    return [4 if rng.random() < 0.08 else rng.randrange(4 if rng.random() < 0.3 else 3)
             for _ in range(d)]
 
 
@@ -161,7 +167,17 @@ def gen_case(rng, nops):
         ops.append({'o': 'set', 't': t, 'k': key, 'v': v, 'q': queries(t, key)})
         remember(t, key, v[0] == 'h')
     # a few spare maps so that populated-before-insertion values exist
-    return dict(nm=nm + 1, nh=nh, ops=ops)
+    seps = []
+    custom = rng.random() < 0.7
+    for _ in range(nm + 1):
+        r = rng.random()
+        if not custom or r < 0.35:
+            seps.append(None)
+        elif r < 0.7:
+            seps.append(['sub', rng.choice(SEPCHARS)])
+        else:
+            seps.append(['inst', rng.choice(SEPCHARS)])
+    return dict(nm=nm + 1, nh=nh, ops=ops, seps=seps)
 
 
 def gen(rng, tier):
@@ -183,7 +199,7 @@ def resolve(maps, t):
 
 def ask(reg, m, kind, parts):
     import desper
-    key = '/'.join(parts)
+    key = m.split_char.join(parts)
     default = object()
     try:
         if kind == 'QItem':
@@ -216,7 +232,18 @@ def run(case):
     Hd = tc.make_handle_class()
     names = tc.Names()
     reg = tc.Registry()
-    maps = [desper.ResourceMap() for _ in range(case['nm'])]
+    maps = []
+    seps = case.get('seps') or [None] * case['nm']
+    for i in range(case['nm']):
+        sp = seps[i] if i < len(seps) else None
+        if sp is None:
+            m = desper.ResourceMap()
+        elif sp[0] == 'sub':
+            m = type('Map%d' % i, (desper.ResourceMap,), {'split_char': sp[1]})()
+        else:
+            m = desper.ResourceMap()
+            m.split_char = sp[1]
+        maps.append(m)
     for i, m in enumerate(maps):
         reg.add_map(m, i)
     handles = {}
@@ -224,6 +251,7 @@ def run(case):
     for o in case['ops']:
         t = resolve(maps, o['t'])
         rec = {'t': reg.mid(t)}
+        rec['sep'] = t.split_char
         path = None
         try:
             if o['o'] == 'set':
@@ -235,7 +263,7 @@ def run(case):
                 else:
                     v = maps[o['v'][1]]
                 path = (t, parts[:-1])
-                t['/'.join(parts)] = v
+                t[t.split_char.join(parts)] = v
             elif o['o'] == 'clear':
                 t.clear()
             else:
@@ -250,14 +278,27 @@ def run(case):
         qs = []
         for (qt, kind, qk) in o['q']:
             qm = resolve(maps, qt)
-            qs.append([reg.mid(qm), ask(reg, qm, kind, [tc.LETTERS[n] for n in qk])])
+            qs.append([reg.mid(qm), ask(reg, qm, kind, [tc.LETTERS[n] for n in qk]),
+                       qm.split_char])
         rec['q'] = qs
         out.append(rec)
-    return {'obs': out}
+    return {'obs': out, 'seps': [m.split_char for m in maps]}
 
 
 # -------------------------------------------------------------------- encoder
-BAD = ('[(OClear 0, OBS [] [] [(Q 0 QItem [] 0, RBad)])]')
+BAD = 'RCASE [] [(ROClear 0, ROBS [] [] [(RQ 0 QItem [0], RBad)])]'
+
+
+def raw_key(parts, sepchar):
+    """the key as the list of its characters: names (>= 0) and separators (< 0);
+    the empty name (code 4) contributes no character"""
+    out = []
+    for i, n in enumerate(parts):
+        if i:
+            out.append(SEPCODE.get(sepchar, -9))
+        if n != 4:
+            out.append(n)
+    return tc.enc_names(out)
 
 
 def encode(case, trace):
@@ -269,20 +310,19 @@ def encode(case, trace):
             return BAD
         if o['o'] == 'set':
             v = '(%s %s)' % ('RH' if o['v'][0] == 'h' else 'RM', z(o['v'][1]))
-            op = '(OSet %s %s %s %s)' % (z(ob['t']), tc.enc_names(o['k'][:-1]),
-                                         z(o['k'][-1]), v)
+            op = '(ROSet %s %s %s)' % (z(ob['t']), raw_key(o['k'], ob['sep']), v)
         elif o['o'] == 'clear':
-            op = '(OClear %s)' % z(ob['t'])
+            op = '(ROClear %s)' % z(ob['t'])
         else:
-            op = '(OPush %s)' % z(ob['t'])
+            op = '(ROPush %s)' % z(ob['t'])
         qs = []
-        for (qt, kind, qk), (qm, res) in zip(o['q'], ob['q']):
-            qs.append('(Q %s %s %s %s, %s)' % (z(qm), kind, tc.enc_names(qk[:-1]),
-                                               z(qk[-1]), tc.enc_qres(res)))
-        items.append('(%s, OBS %s %s %s)' % (
+        for (qt, kind, qk), (qm, res, qsep) in zip(o['q'], ob['q']):
+            qs.append('(RQ %s %s %s, %s)' % (z(qm), kind, raw_key(qk, qsep), tc.enc_qres(res)))
+        items.append('(%s, ROBS %s %s %s)' % (
             op, lst([tc.enc_mrec(r) for r in ob['maps']]),
             lst([tc.enc_hrec(r) for r in ob['handles']]), lst(qs)))
-    return lst(items)
+    seps = lst(['(%s,%s)' % (z(i), z(SEPCODE.get(ch, -9))) for i, ch in enumerate(trace['seps'])])
+    return 'RCASE %s %s' % (seps, lst(items))
 
 
 def nontrivial(case, trace):
@@ -293,10 +333,13 @@ def nontrivial(case, trace):
 def stats(cases, traces):
     d = dict(ops=0, set_handle=0, set_map=0, clear=0, push=0, composed_keys=0,
              path_targets=0, queries=0, implicit_maps=0, layered_states=0,
-             keyerror_answers=0, found_answers=0)
+             keyerror_answers=0, found_answers=0, maps_with_own_split_char=0,
+             ops_on_custom_separator=0, empty_key_parts=0)
     for c, t in zip(cases, traces):
+        d['maps_with_own_split_char'] += sum(1 for x in (c.get('seps') or []) if x)
         for o in c['ops']:
             d['ops'] += 1
+            d['empty_key_parts'] += sum(1 for n in o.get('k', []) if n == 4)
             if o['o'] == 'set':
                 d['set_handle' if o['v'][0] == 'h' else 'set_map'] += 1
                 d['composed_keys'] += len(o['k']) > 1
@@ -308,9 +351,10 @@ def stats(cases, traces):
             last = t['obs'][-1]
             d['implicit_maps'] += sum(1 for r in last['maps'] if r[0] < 0)
             for ob in t['obs']:
+                d['ops_on_custom_separator'] += ob.get('sep', '/') != '/'
                 d['layered_states'] += any(
                     sum(1 for l in r[4] if l) > 1 for r in ob['maps'])
-                for _, res in ob['q']:
+                for _, res, _s in ob['q']:
                     if res in ('K', 'D', 'N'):
                         d['keyerror_answers'] += 1
                     elif isinstance(res, list):
